@@ -133,12 +133,22 @@ def run(tier, seed):
     _av, _an, _ast = _sqa.run_stories(PROP, fxv, rd, "ackstory", 2 if tier == "quick" else 8,
                                       "flush() acknowledged while the worker still had the batch in hand")
     all_viol += _av
+    # handshake of the sharded write-behind under OUTAGES of record writes that last for several worker rounds (2..14
+    # failed batches in a row, flush() called meanwhile by several threads): recorded executions judged by Coord.tla's own
+    # formulas (TraceCoord.tla: NothingLost, RequeueKept, AckCoversAll, CloseCovers)
+    import coordengine as _co
+    _cv, _ccov = _co.part(PROP, tier, rng, fxv, rd)
+    all_viol += _cv
+    cov["coord"] = _ccov
     return {"level": "fault_enumeration", "coverage": cov, "violations": all_viol,
             "assumptions": ["fault decision hook in write_sectors_sync / flush; synchronous batch path forced",
                             "single faults and fail-from-i; pairs of faults not yet enumerated"]}
 
 
 def replay(path):
+    import coordengine as _co
+    if _co.is_coord(path):
+        return _co.replay_main(PROP, path)
     import seqengine as sq
     if sq.is_story(path):
         return sq.replay_story(PROP, path)
